@@ -53,3 +53,17 @@ Example C03_second_cut_keeps_older_choice_points :
            (Cmp "," [Cmp "member" [Var 0; list_t [Int 1; Int 2; Int 3]]; Atom "p"]) [0] 10)
   = [[Int 1]; [Int 2]; [Int 3]].
 Proof. vm_compute. reflexivity. Qed.
+
+(** The same on the trampoline itself (with Proofs/ForceComplete.v): when the
+    top promise executes a cut addressed to [c] and [q] is the first frame that
+    stands for [c], what [force] returns is what resuming on the frames BELOW
+    [q] gives; by [C01_force_deterministic] that is the only thing it can return. *)
+From PV Require Import Proofs.FuelMono Proofs.ForceComplete.
+Theorem C03_force_after_cut :
+  forall p c o above q below st st1 r st',
+    Eval p st (VCut c o) st1 ->
+    stands_for c q = true -> forallb (fun x => negb (stands_for c x)) above = true ->
+    Resume o below st1 r st' -> r <> FOutOfFuel ->
+    exists n, force n (p :: above ++ q :: below) st = (r, st').
+Proof. exact force_after_cut. Qed.
+Print Assumptions C03_force_after_cut.
